@@ -357,6 +357,7 @@ func c20(p *model.Prog, r *report.Result) {
 	if nClose == 0 {
 		r.Ok("C20.R4", "lal|close|none", "", fmt.Sprintf("0 close() calls in %d lal functions", len(p.LalFuncs())))
 	}
+	c20Handoff(p, r)
 }
 
 // blockingUnderLock reports every blocking primitive executed while Group.mutex or
